@@ -27,6 +27,7 @@ ROOT = os.path.dirname(os.path.dirname(os.path.dirname(os.path.abspath(__file__)
 WORKER = os.path.join(ROOT, "sim", "bcworker.py")
 FIRST_TIMEOUT = 1500.0  # a cold compile of the whole engine with bounds checking
 TIMEOUT = 300.0
+HANG_CPU_SECONDS = 60.0
 CHUNK = 50
 CHUNK_TIMEOUT = 3000.0
 
@@ -73,9 +74,21 @@ class Child:
         except Exception:
             return {"garbage": line[:200].decode("latin1")}
 
+    def cpu_seconds(self) -> float:
+        """CPU time consumed so far by the interpreter (user + system), from /proc: unlike the wall clock it does not
+        move while the machine is busy with something else."""
+        try:
+            with open(f"/proc/{self.p.pid}/stat") as f:
+                parts = f.read().rsplit(")", 1)[1].split()
+            return (int(parts[11]) + int(parts[12])) / os.sysconf("SC_CLK_TCK")
+        except Exception:
+            return 0.0
+
     def request(self, req: dict):
         """Returns (answer or None, unraisable reports, how it ended)."""
         self.n += 1
+        self.was_first = self.first
+        self.cpu0 = self.cpu_seconds()
         req = dict(req, id=self.n)
         try:
             self.p.stdin.write((json.dumps(req) + "\n").encode())
@@ -201,9 +214,23 @@ def run(ch: Choices, focus: str = "C16", params: Optional[dict] = None) -> dict:
         else:
             raise RuntimeError(f"compiled worker ended with status {st} while executing {out['model']}")
     elif how == "timeout":
+        burnt = c.cpu_seconds() - c.cpu0
+        first = c.was_first
         drop_child(bc)
         if not reports:
-            raise HarnessTimeout(f"no answer within the time limit for {out['model']} {cfg} {mode}")
+            # a call that has burnt a minute of CPU in compiled code, after the compilation, on a problem that the
+            # interpreted engine finishes within its step budget, is a call that does not return
+            verdict = interpreted_returns(model, cfg, mode) if (want and not first and burnt >= HANG_CPU_SECONDS) else None
+            if verdict is True:
+                msg = ctx + f"no answer after {TIMEOUT:.0f}s and {burnt:.0f}s of CPU, the interpreted engine answers the same call within {e1_engine.SOLVER_BUDGET} simulated steps"
+                viol("C03" if mode[0] in ("minimize", "maximize") else "C02", "compiled-call-does-not-return", msg)
+                viol("C04", "compiled-call-does-not-return", msg)
+            elif verdict == "budget":
+                msg = ctx + f"no answer after {TIMEOUT:.0f}s and {burnt:.0f}s of CPU, and the interpreted engine exceeds {e1_engine.SOLVER_BUDGET} simulated steps on the same call"
+                viol("C03" if mode[0] in ("minimize", "maximize") else "C02", "call-does-not-return", msg)
+                viol("C04", "step-budget", msg)
+            else:
+                raise HarnessTimeout(f"no answer within the time limit for {out['model']} {cfg} {mode}")
     elif ans.get("outcome") == "error":
         out["probes"]["other_errors:" + str(ans.get("etype"))] += 1
         if want:
@@ -217,6 +244,37 @@ def run(ch: Choices, focus: str = "C16", params: Optional[dict] = None) -> dict:
     out["nontrivial"] = len(model["props"]) >= 1 and how == "answered"
     out["sample"] = {"model": out["model"], "config": gen.cfg_str(cfg), "mode": mode, "answer": summary}
     return out
+
+
+def interpreted_returns(model, cfg, mode) -> bool:
+    """The same call on the interpreted engine of this (pool) interpreter, under the step budget of E1."""
+    from sim import nucsio
+    from sim.steps import CLOCK, StepBudgetExceeded
+
+    if not os.environ.get("NUMBA_DISABLE_JIT"):
+        return False
+    CLOCK.install()
+    CLOCK.set_budget(e1_engine.SOLVER_BUDGET)
+    try:
+        solver = nucsio.build_solver(nucsio.build_problem(model), cfg)
+        if mode[0] == "find_all":
+            solver.find_all()
+        elif mode[0] == "partial":
+            it = solver.solve()
+            for _ in range(mode[1]):
+                if next(it, None) is None:
+                    break
+        elif mode[0] == "minimize":
+            solver.minimize(mode[1])
+        else:
+            solver.maximize(mode[1])
+        return True
+    except StepBudgetExceeded:
+        return "budget"
+    except Exception:
+        return False
+    finally:
+        CLOCK.clear_budget()
 
 
 def judge(model, mode, ref, ans, viol, ctx, out):
